@@ -41,6 +41,7 @@ type c04Rec struct {
 	id       string
 	seed     uint64
 	oneLine  bool // locked sinks: every Write call must be exactly one line
+	fast     bool // console storm: one append per Write, no yields, no checksum (the critical section is as short as a real sink's)
 	inflight atomic.Int32
 	overlap  atomic.Int32 // overlapping calls seen
 	mutated  atomic.Int32 // slice changed during Write
@@ -71,14 +72,24 @@ func (r *c04Rec) Write(p []byte) (int, error) {
 		r.overlap.Add(1)
 	}
 	defer r.inflight.Add(-1)
-	before := c04sum(p)
+	var before uint64
+	if !r.fast {
+		before = c04sum(p)
+	}
 	nls := bytes.Count(p, []byte{'\n'})
 	if len(p) == 0 || p[len(p)-1] != '\n' || (r.oneLine && nls != 1) {
 		r.misalign.Add(1)
 		r.note(fmt.Sprintf("Write call of %d bytes with %d newlines: %.80q", len(p), nls, p))
 	}
-	// deliver in up to 3 chunks
 	n := len(p)
+	if r.fast {
+		r.mu.Lock()
+		r.buf = append(r.buf, p...)
+		r.calls++
+		r.mu.Unlock()
+		return n, nil
+	}
+	// deliver in up to 3 chunks
 	c1, c2 := n, n
 	if n >= 2 {
 		h := (uint64(n)*0x9E3779B97F4A7C15 ^ r.seed) >> 17
@@ -192,6 +203,7 @@ type c04Case struct {
 	sharedCtx int
 	callRefl  bool
 	flt       c04Faults // error-path history around the judged loggers (c04_fault.go)
+	storm     int       // console storm (c04_storm.go): c04StormOn, c04StormGC
 	ticks     int
 	seed      uint64
 	class     string
@@ -468,6 +480,7 @@ type c04Obs struct {
 
 func c04run(cs *c04Case, caseNo int) *c04Obs {
 	c04register()
+	defer c04stormEnter(cs)() // a storm runs on GOMAXPROCS >= 8 (c04_storm.go)
 	nb := len(cs.br)
 	obs := &c04Obs{recs: make([][]*c04Rec, nb)}
 	cores := make([]zapcore.Core, nb)
@@ -481,7 +494,7 @@ func c04run(cs *c04Case, caseNo int) *c04Obs {
 		}
 		for u := 0; u < k; u++ {
 			r := &c04Rec{id: fmt.Sprintf("c%d-%d-b%d-s%d", cs.seed%100000, caseNo, j, u), seed: cs.seed + uint64(j*7+u),
-				oneLine: b.kind != c04Buf && b.kind != c04LockBuf}
+				oneLine: b.kind != c04Buf && b.kind != c04LockBuf, fast: cs.storm&c04StormFast != 0}
 			obs.recs[j] = append(obs.recs[j], r)
 		}
 		var ws zapcore.WriteSyncer
@@ -646,6 +659,7 @@ func c04run(cs *c04Case, caseNo int) *c04Obs {
 			}
 		}(clk)
 	}
+	c04stormGC(cs, &tickWg, start, stopTicks) // forced garbage collections during a storm
 	done := make(chan struct{})
 	go func() {
 		close(start)
@@ -884,7 +898,7 @@ func c04emit(c *Ctx, cs *c04Case, caseNo int) {
 	}
 	c.Emit(input, L(ob...), map[string]string{"nt": nt, "class": cs.class, "g": fmt.Sprint(len(cs.th)),
 		"lines": fmt.Sprint(totalLines), "maxline": fmt.Sprint(maxLine), "bigger": big, "syncs": fmt.Sprint(syncOps), "ticks": fmt.Sprint(cs.ticks),
-		"refl": fmt.Sprintf("%d%d%v", cs.baseCtx, cs.sharedCtx, cs.usesRefl()),
+		"refl": fmt.Sprintf("%d%d%v", cs.baseCtx, cs.sharedCtx, cs.usesRefl()), "storm": cs.stormTag(),
 		"bigs": fmt.Sprint(cs.bigs()), "pre": cs.preTag(), "bigs_before": fmt.Sprint(bigsBefore), "bigmax_before": fmt.Sprint(bigMaxBefore),
 		"fault": cs.faultTag(), "errs_before": fmt.Sprint(errsBefore), "errs_in_case": fmt.Sprint(c04Injected.Load() - errsBefore)})
 	c.out.Flush()
@@ -1114,10 +1128,12 @@ func c04child(c *Ctx) {
 		runtime.GOMAXPROCS(4)
 	}
 	from, _ := strconv.Atoi(os.Getenv("C04_FROM"))
+	only := os.Getenv("C04_ONLY") // development: run only the cases whose class contains this (the others are still generated)
 	r := NewRNG(c.Seed)
 	// the oversize entries draw from a stream of their own: what they are added to is the case
 	// the seed generated before they existed
 	rb := NewRNG(c.Seed*0x9E3779B97F4A7C15 + 0xC04B16)
+	rs := NewRNG(c.Seed*0x9E3779B97F4A7C15 + 0xC0457)
 	caseNo := 0
 	var emitR func(cs *c04Case, rr *RNG)
 	emit := func(cs *c04Case) { emitR(cs, r) }
@@ -1133,7 +1149,10 @@ func c04child(c *Ctx) {
 		if cs.bigs() > 0 {
 			cs.class += "/big"
 		}
-		if caseNo >= from {
+		if cs.storm != 0 {
+			cs.class = cs.stormName() + ":" + cs.class
+		}
+		if caseNo >= from && (only == "" || strings.Contains(cs.class, only)) {
 			c04emit(c, cs, caseNo)
 		}
 		caseNo++
@@ -1342,6 +1361,9 @@ func c04child(c *Ctx) {
 	}
 	// 1d. directed: oversize entries (c04_big.go)
 	c04bigGrid(c, rb, emitR)
+	// 1e. directed: console storm (c04_storm.go): 64..128 goroutines, thousands of console entries with
+	// With-context and call-site fields, payloads 7 B..96 KiB, forced garbage collections
+	c04stormGrid(c, rs, emitR)
 	// 2. seeded random configurations
 	N := 800
 	budget := 4000
@@ -1416,6 +1438,11 @@ func c04child(c *Ctx) {
 		}
 		if r.Chance(35) {
 			c04genFaults(r, cs) // error-path history around (and inside) the judged loggers
+		}
+		if rs.Chance(1) {
+			// a storm of the random configuration (c04_storm.go): 32..80 goroutines on its sinks, encoders,
+			// contexts and fault history
+			c04stormRandom(rs, cs, ws, refl)
 		}
 		if rb.Chance(bigPct) {
 			// oversize entries on top of whatever the case is: prologue / every 16th / dedicated / oversize context
